@@ -119,6 +119,24 @@ def describe(parts, names):
     return [[(x if x[0] != 'n' else ('n', names.get(x[1], '?'))) for x in p] for p in parts]
 
 
+def _walker_of(nodes):
+    for n in nodes:
+        if n is not None and getattr(n, 'latex_walker', None) is not None:
+            return n.latex_walker
+    return None
+
+
+def verbatim_mismatch(nl):
+    """A derived list (part, filtered list, aggregated value) need not be one contiguous stretch of the source: its source text is
+    the concatenation of the source text of its members, whatever span the list object reports."""
+    try:
+        got = nl.latex_verbatim()
+        want = ''.join(n.latex_verbatim() for n in nl if n is not None)
+    except Exception as e:
+        return ('raises', type(e).__name__)
+    return None if got == want else (got, want)
+
+
 def check_lists(s, nodes, acc, sub='split'):
     """nodes: python list of top-level nodes (possibly with None)."""
     from pylatexenc.latexnodes.nodes import LatexNodeList
@@ -128,7 +146,7 @@ def check_lists(s, nodes, acc, sub='split'):
         for keep_empty in (False, True):
             for max_split in MAXSPLITS:
                 for skip_none in ((True, False) if any(n is None for n in nodes) else (True,)):
-                    nl = LatexNodeList(list(nodes), latex_walker=None)
+                    nl = LatexNodeList(list(nodes), latex_walker=(_walker_of(nodes) if keep_empty else None))
                     case = dict(s=s, sep=sname, keep_empty=keep_empty, max_split=max_split, skip_none=skip_none,
                                 none_at=[i for i, n in enumerate(nodes) if n is None])
                     acc.count('evaluations')
@@ -152,6 +170,11 @@ def check_lists(s, nodes, acc, sub='split'):
                         acc.violation(ID, sub, case, dict(kind=kind, keep_empty=keep_empty, sepkind=('string' if isinstance(sep, str) else sname)),
                                       observed=repr(describe(got, names))[:700], expected=repr(describe(exp, names))[:700])
                         continue
+                    for nlr in (res if nl.latex_walker is not None else ()):   # pieces made by a list without walker have none either
+                        mm = verbatim_mismatch(nlr)
+                        if mm is not None:
+                            acc.violation(ID, sub, case, dict(kind='part-source-text-wrong'), observed=repr(mm[0])[:200], expected=repr(mm[1])[:200])
+                            break
                     # list spans of non-empty parts
                     for nlr in res:
                         items = [x for x in nlr if x is not None]
@@ -191,7 +214,7 @@ def check_node_split(s, nodes, acc, none_at=None):
     # filter
     for kw in (dict(), dict(skip_comments=True), dict(skip_whitespace_char_nodes=True), dict(skip_none=False),
                dict(node_predicate_fn=lambda n: canon.kind_of(n) != 'group')):
-        nl = LatexNodeList(list(nodes), latex_walker=None)
+        nl = LatexNodeList(list(nodes), latex_walker=_walker_of(nodes))
         acc.count('evaluations')
         st, res = run_guarded(nl.filter, **kw)
         if st != 'ok':
@@ -216,6 +239,11 @@ def check_node_split(s, nodes, acc, none_at=None):
         got = [None if n is None else id(n) for n in res]
         if got != exp:
             acc.violation(ID, 'filter', dict(s=s, kw=sorted(kw)), dict(kind='filter-differs', kw=sorted(kw)))
+        elif hasattr(res, 'latex_verbatim') and not any(n is None for n in res):
+            mm = verbatim_mismatch(res)
+            if mm is not None:
+                acc.violation(ID, 'filter', dict(s=s, kw=sorted(kw)), dict(kind='filtered-list-source-text-wrong', kw=sorted(kw)),
+                              observed=repr(mm[0])[:200], expected=repr(mm[1])[:200])
 
 
 POLICIES = ['concatenate', 'first', 'last', 'error']
@@ -306,6 +334,14 @@ def check_keyval(s, nodelist, acc):
             if got != want or list(res.keys()) != order:
                 acc.violation(ID, 'keyval', case, dict(kind='keyval-differs-from-composition', policy=policy, extract=extract),
                               observed=repr(got)[:600], expected=repr(want)[:600])
+                continue
+            for k, v in res.items():
+                if hasattr(v, 'latex_verbatim') and hasattr(v, 'nodelist') and not any(n is None for n in v):
+                    mm = verbatim_mismatch(v)
+                    if mm is not None:
+                        acc.violation(ID, 'keyval', case, dict(kind='keyval-value-source-text-wrong', policy=policy),
+                                      observed=repr(mm[0])[:200], expected=repr(mm[1])[:200])
+                        break
 
 
 KV_ALPHA = ['a=', 'b=', ',', '{b}', 'a', 'b', '{}', ' ']
